@@ -46,7 +46,13 @@ def run_case(ctx, rep, spec, cn, posname, pos, fields, limit, model, path=None, 
     rep.count("pos:" + posname.split(":")[-1]); rep.count(f"normal:{cn}")
     try:
         with alarm(300), quiet(), geom.tainted_empty(), pools.controlled():
-            if how == "cli":
+            if how == "bare":
+                # started in the directory that holds the plotfile, input and output given as bare names
+                from ..common import chdir
+                with chdir(os.path.dirname(path)):
+                    Mandoline(os.path.basename(path), fields=req, limit_level=limit, serial=True, verbose=0).slice(
+                        normal=cn, pos=pos, outfile=os.path.basename(out), fformat="plotfile")
+            elif how == "cli":
                 from .. import tools
                 tools.mandoline_cli(path, "plotfile", out, req, cn, pos, limit, serial=True)
             else:
@@ -142,6 +148,22 @@ def run_case(ctx, rep, spec, cn, posname, pos, fields, limit, model, path=None, 
         else:
             rep.agree(); rep.count("header-theorem-applies")
     if model and not bad:
+        # the 2D header, against the Lean writer model fed with the reader model's parse of the 3D input header
+        text = open(os.path.join(path, "Header"), newline="").read()
+        floats = []
+        for t in set(text.split()):
+            try:
+                floats.append([t, str(float(t))])
+            except ValueError:
+                pass
+        sel = [[b for b, box in enumerate(spec["levels"][lv]) if meets(spec, lv, box, cn, pos)] for lv in range(L + 1)]
+        m = leanio.driver([{"op": "slice_header", "hex": text.encode().hex(), "limit": limit, "names": list(fields),
+                            "coord": writers.header_request(text)["coord"], "cx": cx, "cy": cy, "selected": sel, "floats": floats}])[0]
+        if m.get("status") == "ok" and bytes.fromhex(m["hex"]) == open(os.path.join(out, "Header"), "rb").read() and m.get("good"):
+            rep.agree(); rep.count("slice-header-is-the-writer-model's")
+        else:
+            rep.tie("the 2D header of the slice differs from the Lean writer model's (C16.slice_header_content / slice_header_read_back)",
+                    case, {"status": m.get("status"), "good": m.get("good")})
         # which boxes are listed, against the Lean model of the selection test (C16.each_box_once)
         reqs = []
         for lv in range(L + 1):
@@ -212,6 +234,8 @@ def run(ctx, rep, model=True):
                 how = ["api", "cli", "str", "api", "cli", "api"][j % 6] if len(fields) == 1 or j % 6 != 2 else "api"
                 if limit == 0 and nlev >= 2 and (i + j) % 2 == 0:
                     how = "cli"          # the value 0 of an option through the console script
+                if j % 7 == 4:
+                    how = "bare"
                 run_case(ctx, rep, spec, cn, nm, pos, fields, limit, model, path, truth, batch, how=how)
                 if len(rep.violations) >= 12:
                     c07.flush_model(rep, batch)
